@@ -4,8 +4,15 @@
 //! trusted: HmacEngine is a stub that records key and the concatenation of its inputs in ghost fields; Hmac::from_engine(..).to_byte_array() is the uninterpreted hmac_sha256(key, data); Sha256::hash(..).to_byte_array() is the external_body wrapper sha256 (R8); fixed_time_eq is extracted-by-contract (equal lengths required, result = equality); `(x.len() as u64).to_le_bytes()` is the external_body wrapper le64 (R8); `&h.split_at_mut(IV_LEN).0` is the external_body wrapper first_iv_len (first 16 bytes, R8); ExpandedKey is extracted; PaymentHash / PaymentPreimage newtypes
 //! trusted: R15 (deep slices): create / create_from_hash / create_for_spontaneous_payment: the statements from the construction of the HMAC engine to the end of each function, verbatim (construct_payment_secret external_body over the uninterpreted secret_of; `iv.copy_from_slice(&h[..IV_LEN])` is the external_body wrapper copy_prefix, R8); building the info bytes (Kani h_info_bytes) and encrypting the metadata before these statements are dropped and not claimed
 //! trusted: R15: verify: the unit extracts the `match payment_type_res { .. }` statement that authenticates the secret (all five arms) verbatim as a function of the decrypted (iv_bytes, info_bytes); inside its arms the two blocks that decrypt the payment metadata after a successful check are dropped (R15, stated) `payment_metadata` is a shared reference to the bytes (`.as_deref()` / `.map(Vec::as_slice)` dropped, R5) and the full-range slice `&info_bytes[..]` of an array is written `&info_bytes` (R8); decrypting the secret, the amount / expiry tests (unit u04b) and the method-bits decoding (Kani harness h_info_bytes) are outside this unit
+//! trusted: assume_specification for core::cmp::max / core::cmp::min (std definitions): present in every unit so that a change that introduces them is verified instead of being rejected by the tool
 use vstd::prelude::*;
 verus! {
+use vstd::std_specs::cmp::*;
+use core::cmp;
+pub assume_specification<T: core::cmp::Ord>[core::cmp::max::<T>](a: T, b: T) -> (r: T)
+    ensures T::obeys_cmp_spec() ==> r == (if b.cmp_spec(&a) == core::cmp::Ordering::Less { a } else { b });
+pub assume_specification<T: core::cmp::Ord>[core::cmp::min::<T>](a: T, b: T) -> (r: T)
+    ensures T::obeys_cmp_spec() ==> r == (if b.cmp_spec(&a) == core::cmp::Ordering::Less { b } else { a });
 #[derive(Clone, Copy)] pub struct PaymentHash(pub [u8; 32]);
 #[derive(Clone, Copy)] pub struct PaymentPreimage(pub [u8; 32]);
 pub uninterp spec fn hmac_sha256(key: [u8; 32], data: Seq<u8>) -> [u8; 32];
